@@ -3139,23 +3139,54 @@ class sptensor:
             assert False, "Sptensor multiply requires two tensors of the same shape."
 
         if isinstance(other, ttb.sptensor):
+            # A stored infinity or NaN times an implicit zero of the other operand
+            # is NaN (rare: only looked for when such values are stored)
+            nansubs = [np.empty((0, self.ndims), dtype=int)]
+            for one, two in ((self, other), (other, self)):
+                if one.nnz > 0 and not np.all(np.isfinite(one.vals)):
+                    lone = one.subs[~np.isfinite(one.vals).reshape(-1), :]
+                    if two.nnz > 0:
+                        lone = lone[tt_setdiff_rows(lone, two.subs), :]
+                    nansubs.append(lone)
+            nansubs_all = np.vstack(nansubs)
             if self.nnz == 0 or other.nnz == 0:
-                return ttb.sptensor(shape=self.shape)
-            idxSelf = tt_intersect_rows(self.subs, other.subs)
+                idxSelf = np.array([], dtype=int)
+            else:
+                idxSelf = tt_intersect_rows(self.subs, other.subs)
             # Look values up by subscript, stored orders may differ
-            if idxSelf.size == 0:
+            if idxSelf.size == 0 and nansubs_all.shape[0] == 0:
                 return ttb.sptensor(shape=self.shape)
-            return _without_zero_values(
-                self.subs[idxSelf],
-                self.vals[idxSelf] * other.extract(self.subs[idxSelf]),
-                self.shape,
-            )
+            if idxSelf.size == 0:
+                return ttb.sptensor(
+                    nansubs_all, np.full((nansubs_all.shape[0], 1), np.nan), self.shape
+                )
+            prodsubs = self.subs[idxSelf]
+            prodvals = self.vals[idxSelf] * other.extract(self.subs[idxSelf])
+            if nansubs_all.shape[0] > 0:
+                prodsubs = np.vstack((prodsubs, nansubs_all))
+                prodvals = np.vstack(
+                    (prodvals, np.full((nansubs_all.shape[0], 1), np.nan))
+                )
+            return _without_zero_values(prodsubs, prodvals, self.shape)
         if isinstance(other, ttb.tensor):
+            # An implicit zero times an infinity or NaN of the dense operand is NaN
+            # (rare: only looked for when the dense operand holds such values)
+            nansubs = np.empty((0, self.ndims), dtype=int)
+            if not np.all(np.isfinite(other.data)):
+                nansubs = np.argwhere(~np.isfinite(other.data))
+                if self.nnz > 0:
+                    nansubs = nansubs[tt_setdiff_rows(nansubs, self.subs), :]
+            nanvals = np.full((nansubs.shape[0], 1), np.nan)
             if self.nnz == 0:
-                return self.copy()
+                if nansubs.shape[0] == 0:
+                    return self.copy()
+                return ttb.sptensor(nansubs, nanvals, self.shape)
             csubs = self.subs
             # A single subscript is returned as a scalar
             cvals = self.vals * np.atleast_1d(other[csubs])[:, None]
+            if nansubs.shape[0] > 0:
+                csubs = np.vstack((csubs, nansubs))
+                cvals = np.vstack((cvals, nanvals))
             return _without_zero_values(csubs, cvals, self.shape)
         if isinstance(other, ttb.ktensor):
             if self.nnz == 0:
@@ -3243,10 +3274,10 @@ class sptensor:
             if self.subs.size > 0:
                 subs1 = self.subs[tt_setdiff_rows(self.subs, other.subs), :]
                 if subs1.size > 0:
+                    # (asked directly rather than through the opposite operator: a
+                    # stored NaN satisfies neither)
                     subs1 = subs1[
-                        np.logical_not(
-                            opposite_operator(self.extract(subs1), 0)
-                        ).transpose()[0],
+                        operator(self.extract(subs1), 0).transpose()[0],
                         :,
                     ]
             else:
@@ -3257,9 +3288,7 @@ class sptensor:
                 subs2 = other.subs[tt_setdiff_rows(other.subs, self.subs), :]
                 if subs2.size > 0:
                     subs2 = subs2[
-                        np.logical_not(operator(other.extract(subs2), 0)).transpose()[
-                            0
-                        ],
+                        operator(0, other.extract(subs2)).transpose()[0],
                         :,
                     ]
             else:
